@@ -1,6 +1,6 @@
 (* Record of field operations: generic algorithm models and the ring-polymorphic
    output of rs2v are functions of an FOps. *)
-From Coq Require Import ZArith.
+From Coq Require Import ZArith Ring_theory Field_theory.
 
 Record FOps (F : Type) := mkFOps {
   fzero : F; fone : F;
@@ -13,3 +13,39 @@ Record FOps (F : Type) := mkFOps {
 Arguments fzero {F}. Arguments fone {F}. Arguments fadd {F}. Arguments fsub {F}.
 Arguments fmul {F}. Arguments fneg {F}. Arguments fdouble {F}. Arguments fsquare {F}.
 Arguments finv {F}. Arguments fdiv {F}. Arguments feqb {F}. Arguments fofz {F}.
+
+(* Field laws, as a Prop record: generic algorithm theorems are stated "for every FOps with FLaws". *)
+Record FLaws {F : Type} (O : FOps F) : Prop := mkFLaws {
+  fl_add_comm : forall a b, fadd O a b = fadd O b a;
+  fl_add_assoc : forall a b c, fadd O a (fadd O b c) = fadd O (fadd O a b) c;
+  fl_add_0_l : forall a, fadd O (fzero O) a = a;
+  fl_mul_comm : forall a b, fmul O a b = fmul O b a;
+  fl_mul_assoc : forall a b c, fmul O a (fmul O b c) = fmul O (fmul O a b) c;
+  fl_mul_1_l : forall a, fmul O (fone O) a = a;
+  fl_distr_l : forall a b c, fmul O (fadd O a b) c = fadd O (fmul O a c) (fmul O b c);
+  fl_sub_def : forall a b, fsub O a b = fadd O a (fneg O b);
+  fl_neg_def : forall a, fadd O a (fneg O a) = fzero O;
+  fl_double_def : forall a, fdouble O a = fadd O a a;
+  fl_square_def : forall a, fsquare O a = fmul O a a;
+  fl_one_neq_zero : fone O <> fzero O;
+  fl_inv_l : forall a, a <> fzero O -> fmul O (finv O a) a = fone O;
+  fl_inv_0 : finv O (fzero O) = fzero O;
+  fl_div_def : forall a b, fdiv O a b = fmul O a (finv O b);
+  fl_eqb_spec : forall a b, feqb O a b = true <-> a = b
+}.
+
+Lemma FLaws_ring_theory {F} (O : FOps F) (L : FLaws O) :
+  ring_theory (fzero O) (fone O) (fadd O) (fmul O) (fsub O) (fneg O) (@eq F).
+Proof.
+  destruct L. constructor; intros; auto.
+Qed.
+
+Lemma FLaws_field_theory {F} (O : FOps F) (L : FLaws O) :
+  field_theory (fzero O) (fone O) (fadd O) (fmul O) (fsub O) (fneg O) (fdiv O) (finv O) (@eq F).
+Proof.
+  constructor.
+  - apply FLaws_ring_theory; exact L.
+  - apply (fl_one_neq_zero O L).
+  - intros; apply (fl_div_def O L).
+  - intros; apply (fl_inv_l O L); assumption.
+Qed.
